@@ -333,7 +333,7 @@ def ordering(chk, prog):
             ty0 = (t.get("arg_tys") or [""])[0]
             if ty0.startswith("&mut std::vec::Vec<") and any(x in ty0 for x in ("RouteConfig", "HostConfig", "ConfigNode")):
                 muts.append((t.get("callee") or "?").split("::")[-1])
-        chk.ob("R3.order", fn, "lists are only appended to", all(m in ("push", "extend", "reserve", "extend_from_slice", "deref_mut", "deref") for m in muts), f"{muts}")
+        chk.ob("R3.order", fn, "lists are only appended to", all(m in ("push", "extend", "append", "reserve", "extend_from_slice", "deref_mut", "deref") for m in muts), f"{muts}")
     for fn in (TREE + "ConfigNode::get_hosts", TREE + "ConfigNode::get_routes"):
         b = prog.bodies.get(fn)
         if b:
